@@ -32,13 +32,13 @@ class RunProp(Prop):
             if k == "pause_core":
                 iv = _pause_core(i.get("pause"))
                 mv = _pause_core(m.get("pause"))
-            if iv != mv:
+            if impl.differ(iv, mv):
                 return f"{k}: impl={iv!r} model={mv!r}"
         if self.compare_calls:
             ic, mc = i["calls"], m["calls"]
             if case.get("runner") == "async":
                 ic, mc = impl.sort_calls(ic), impl.sort_calls(mc)
-            if ic != mc:
+            if impl.differ(ic, mc):
                 return f"call log differs: impl={ic!r} model={mc!r}"
         if self.compare_events and case.get("runner", "sync") == "sync":
             ie, me = impl.ordinalise(i["events"]), impl.ordinalise(m["events"])
